@@ -271,7 +271,7 @@ def _texpr(n, env):
         (a, ta), (b, tb) = _texpr(n.left, env), _texpr(rhs, env)
         need(ta == tb, 'kernel: comparison of %s with %s: %s' % (ta, tb, key[:80]))
         if isinstance(op, (ast.Eq, ast.NotEq)):
-            eqs = {'Z': '(%s =? %s)', 'string': '(String.eqb %s %s)', 'bool': '(Bool.eqb %s %s)'}
+            eqs = {'Z': '(%s =? %s)', 'string': '(String.eqb %s %s)', 'bool': '(Bool.eqb %s %s)', 'list string': '(strs_eqb %s %s)'}
             need(ta in eqs, 'kernel: equality on %s' % ta)
             r = eqs[ta] % (a, b)
             return (r if isinstance(op, ast.Eq) else '(negb %s)' % r, 'bool')
@@ -290,6 +290,8 @@ def _texpr(n, env):
             (l, tl), (x, tx) = _texpr(f.value, env), _texpr(n.args[0], env)
             need((tl, tx) in (('list Z', 'Z'), ('list string', 'string')), 'kernel: index on %s' % tl)
             return ('(%s %s %s)' % ('src_zindex' if tx == 'Z' else 'src_sindex', x, l), 'Z')
+        if isinstance(f, ast.Name) and f.id == 'cast' and len(n.args) == 2 and not n.keywords:
+            return _texpr(n.args[1], env)       # typing.cast(T, e) is e
         if isinstance(f, ast.Name) and f.id == 'bool' and len(n.args) == 1 and not n.keywords:
             x, tx = _texpr(n.args[0], env)
             need(tx == 'bool', 'kernel: bool() of a %s' % tx)
@@ -298,6 +300,16 @@ def _texpr(n, env):
             x, tx = _texpr(n.args[0], env)
             need(tx in ('string', 'list string', 'list Z'), 'kernel: len of %s' % tx)
             return ('(Z.of_nat (%s %s))' % ('String.length' if tx == 'string' else 'List.length', x), 'Z')
+    if isinstance(n, ast.ListComp) and len(n.generators) == 1 and isinstance(n.elt, ast.Name) and isinstance(n.generators[0].target, ast.Name) \
+            and n.elt.id == n.generators[0].target.id and len(n.generators[0].ifs) == 1 and not n.generators[0].is_async:
+        # [x for x in L if c(x)]
+        g = n.generators[0]
+        l, tl = _texpr(g.iter, env)
+        need(tl == 'list string', 'kernel: comprehension over %s' % tl)
+        env2 = dict(env); env2[g.target.id] = ('c_' + g.target.id, 'string')
+        c, tc = _texpr(g.ifs[0], env2)
+        need(tc == 'bool', 'kernel: comprehension filter of type %s' % tc)
+        return ('(filter (fun c_%s => %s) %s)' % (g.target.id, c, l), 'list string')
     if isinstance(n, ast.Tuple) and n.elts:
         parts = [_texpr(e, env) for e in n.elts]
         return ('(' + ', '.join(e for e, _ in parts) + ')', ' * '.join(t for _, t in parts))
@@ -915,6 +927,72 @@ def main(out_path):
     soft('policy verdict to exit status (audit / evaluate_policy)', ['C02'], ex_policy_exit)
 
     globals()['LAST_SOFT_FAILURES'] = soft_failures
+
+    def ex_policy_decisions():
+        # Policy.evaluate(): every decision of the function as an expression over the policy's and the peer's values, in source order, plus the error labels in source order
+        t_pol = ast.parse(src('policy.py'))
+        ev = func_node(t_pol, 'Policy.evaluate')
+        ifs = [n for n in ast.walk(ev) if isinstance(n, ast.If)]
+        # (1) the three size comparisons
+        sizes = [n for n in ifs if 'self._allow_larger_keys' in ast.unparse(n.test)]
+        need(len(sizes) == 3, 'Policy.evaluate: three size comparisons (host key, CA, modulus): %d' % len(sizes))
+        for k, n in enumerate(sorted(sizes, key=lambda x: x.lineno)):
+            names = sorted({x.id for x in ast.walk(n.test) if isinstance(x, ast.Name) and x.id != 'self'})
+            act = [x for x in names if x.startswith('actual_')]
+            exp = [x for x in names if x.startswith('expected_')]
+            need(len(act) == 1 and len(exp) == 1 and len(names) == 2, 'Policy.evaluate: size comparison over %r' % (names,))
+            w(kernel('src_policy_size_bad_%d' % k, [('larger', 'bool'), (act[0], 'Z'), (exp[0], 'Z')], [ast.Return(value=n.test)], inputs={'self._allow_larger_keys': ('larger', 'bool')}))
+        # (2) the strict-KEX marker condition
+        mk = [n for n in ifs if 'kex-strict-s-v00@openssh.com' in ast.unparse(n.test)]
+        need(len(mk) == 1, 'Policy.evaluate: the marker condition')
+        w(kernel('src_policy_marker_missing', [('pol_kex', 'list string'), ('peer_kex', 'list string')], [ast.Return(value=mk[0].test)],
+                 inputs={'self._kex': ('pol_kex', 'list string'), 'kex.kex_algorithms': ('peer_kex', 'list string')}))
+        # (3) exact comparisons  <peer list> != <policy list>
+        ex = [n for n in ifs if isinstance(n.test, ast.Compare) and isinstance(n.test.ops[0], ast.NotEq) and ast.unparse(n.test.comparators[0]) in
+              ('self._compressions', 'self._host_keys', 'self._kex', 'self._ciphers', 'self._macs')]
+        ex += [n for n in ifs if isinstance(n.test, ast.BoolOp) and len(n.test.values) == 2 and ast.unparse(n.test.values[0]) == 'self._compressions is not None']
+        got = []
+        for n in sorted(ex, key=lambda x: x.lineno):
+            t = n.test.values[1] if isinstance(n.test, ast.BoolOp) else n.test
+            need(isinstance(t, ast.Compare) and isinstance(t.ops[0], ast.NotEq), 'Policy.evaluate: exact comparison')
+            got.append((ast.unparse(t.left), ast.unparse(t.comparators[0])))
+            w(kernel('src_policy_exact_differs_%d' % (len(got) - 1), [('actual', 'list string'), ('pol', 'list string')], [ast.Return(value=t)],
+                     inputs={ast.unparse(t.left): ('actual', 'list string'), ast.unparse(t.comparators[0]): ('pol', 'list string')}))
+        need(got == [('kex.server.compression', 'self._compressions'), ('pruned_host_keys', 'self._host_keys'), ('kex.kex_algorithms', 'self._kex'),
+                     ('kex.server.encryption', 'self._ciphers'), ('kex.server.mac', 'self._macs')], 'Policy.evaluate: exact comparisons %r' % (got,))
+        # (4) subset mode: `for x in <peer list>: if x not in <policy list>: ...; break`
+        loops = [n for n in ast.walk(ev) if isinstance(n, ast.For) and len(n.body) == 1 and isinstance(n.body[0], ast.If) and isinstance(n.body[0].body[-1], ast.Break)]
+        sub = []
+        for n in sorted(loops, key=lambda x: x.lineno):
+            t = n.body[0].test
+            need(isinstance(n.target, ast.Name) and isinstance(t, ast.Compare) and isinstance(t.ops[0], ast.NotIn) and ast.unparse(t.left) == n.target.id and not n.orelse and not n.body[0].orelse,
+                 'Policy.evaluate: subset loop shape')
+            sub.append((ast.unparse(n.iter), ast.unparse(t.comparators[0])))
+        need(sub == [('kex.key_algorithms', 'self._host_keys'), ('kex.kex_algorithms', 'self._kex'), ('kex.server.encryption', 'self._ciphers'), ('kex.server.mac', 'self._macs')],
+             'Policy.evaluate: subset loops %r' % (sub,))
+        w('Definition src_policy_not_all_in (actual pol : list string) : bool := existsb (fun x => negb (mem x pol)) actual.   (* for x in actual: if x not in pol: <error>; break  -- %d sites *)' % len(sub))
+        # (5) pruning of the optional host keys
+        pr = [n for n in ast.walk(ev) if isinstance(n, ast.Assign) and isinstance(n.targets[0], ast.Name) and n.targets[0].id == 'pruned_host_keys' and isinstance(n.value, ast.ListComp)]
+        need(len(pr) == 1, 'Policy.evaluate: pruning comprehension')
+        w(kernel('src_policy_pruned', [('keys', 'list string'), ('opt', 'list string')], [ast.Return(value=pr[0].value)],
+                 inputs={'kex.key_algorithms': ('keys', 'list string'), 'self._optional_host_keys': ('opt', 'list string')}))
+        # (6) "a CA is specified" and "CA type differs"
+        ca = [n for n in ifs if "['ca_key_type']" in ast.unparse(n.test) and "['ca_key_size']" in ast.unparse(n.test)]
+        need(len(ca) == 1 and isinstance(ca[0].test, ast.BoolOp) and len(ca[0].test.values) == 3 and ast.unparse(ca[0].test.values[0]) == 'self._hostkey_sizes is not None', 'Policy.evaluate: CA-specified condition')
+        cond = ast.BoolOp(op=ast.And(), values=ca[0].test.values[1:])
+        w(kernel('src_policy_ca_specified', [('ca_type', 'string'), ('ca_size', 'Z')], [ast.Return(value=cond)],
+                 inputs={"self._hostkey_sizes[hostkey_type]['ca_key_type']": ('ca_type', 'string'), "self._hostkey_sizes[hostkey_type]['ca_key_size']": ('ca_size', 'Z')}))
+        # (7) the error labels, in source order
+        labels = []
+        for n in sorted([c for c in ast.walk(ev) if isinstance(c, ast.Call) and isinstance(c.func, ast.Attribute) and c.func.attr == '_append_error'], key=lambda x: (x.lineno, x.col_offset)):
+            a0 = n.args[0]
+            if isinstance(a0, ast.Constant) and isinstance(a0.value, str):
+                labels.append(a0.value)
+            else:
+                need(isinstance(a0, ast.BinOp) and isinstance(a0.op, ast.Mod) and isinstance(a0.left, ast.Constant) and a0.left.value.count('%s') == 1, 'Policy.evaluate: error label %s' % ast.unparse(a0))
+                labels.append(a0.left.value)
+        w('Definition src_policy_error_labels : list string := ' + cstrs(labels) + '.')
+    soft('decisions and error labels of Policy.evaluate', ['C06'], ex_policy_decisions)
 
     def ex_ssh_version():
         t_alg = ast.parse(src('algorithm.py'))
